@@ -82,12 +82,36 @@ Notation calculate_item := (calculate_item bexec).
 (* 2. The interpreter and the variables                                *)
 (* ================================================================== *)
 
-(* what the interpreter does after the right-hand side evaluated (compiler/mod.rs:87-92):
-   the value is stored; an existing variable keeps its name tokens, a new one is registered
-   now with the name tokens the parser put into the assignment node *)
+(* what the interpreter does after the right-hand side evaluated (compiler/mod.rs:87-92).
+   The node carries the key [name] under which the parser looked the variable up, and the name
+   tokens; an existing variable keeps its key and its name tokens; otherwise a new variable is
+   registered under [var_key vs toks] = VariableInfo::to_string (the lower-cased name tokens
+   joined by a space).  For every node the parser builds, name = var_key vs toks
+   (parsed_key_is_var_key, section 4.1), so the written key is the lookup key; for an arbitrary
+   hand-built node [written_key] says which key is written. *)
+Definition written_key (name : str) (toks : list (token F)) (vs : vars F) : str :=
+  match assoc name vs with Some _ => name | None => var_key vs toks end.
+
 Definition store (name : str) (toks : list (token F)) (v : ast F) (vs : vars F) : vars F :=
-  assoc_insert name {| v_tokens := match assoc name vs with Some vi => v_tokens vi | None => toks end;
-                       v_data := v |} vs.
+  assoc_insert (written_key name toks vs)
+               {| v_tokens := match assoc name vs with Some vi => v_tokens vi | None => toks end;
+                  v_data := v |} vs.
+
+Lemma store_model name toks v vs :
+  store name toks v vs =
+  match assoc name vs with
+  | Some vi => assoc_insert name {| v_tokens := v_tokens vi; v_data := v |} vs
+  | None => assoc_insert (var_key vs toks) {| v_tokens := toks; v_data := v |} vs
+  end.
+Proof. unfold store, written_key. destruct (assoc name vs); reflexivity. Qed.
+
+Lemma written_key_spec name toks vs :
+  (forall vi, assoc name vs = Some vi -> written_key name toks vs = name) /\
+  (assoc name vs = None -> written_key name toks vs = var_key vs toks).
+Proof. unfold written_key. split; [intros vi H|intro H]; rewrite H; reflexivity. Qed.
+
+Lemma written_key_coherent name toks vs : var_key vs toks = name -> written_key name toks vs = name.
+Proof. intro H. unfold written_key. destruct (assoc name vs); [reflexivity|exact H]. Qed.
 
 (* the abstraction: the value a name denotes *)
 Definition value_of (vs : vars F) (k : str) : option (ast F) := option_map (@v_data F) (assoc k vs).
@@ -96,22 +120,35 @@ Lemma var_value_value_of vs k :
   var_value vs k = match value_of vs k with Some v => v | None => ANone end.
 Proof. unfold var_value, value_of. destruct (assoc k vs); reflexivity. Qed.
 
+(* the session argument of token_to_string / var_key is not used *)
+Lemma tts_irrel (vs vs' : vars F) (t : token F) : token_to_string vs t = token_to_string vs' t.
+Proof. destruct t; reflexivity. Qed.
+
+Lemma var_key_irrel (vs vs' : vars F) toks : var_key vs toks = var_key vs' toks.
+Proof.
+  destruct toks as [|t r]; [reflexivity|]. cbn [var_key]. rewrite (tts_irrel vs vs' t).
+  generalize (to_lowercase (token_to_string vs' t)). induction r as [|x r IH]; intro acc; cbn [fold_left];
+    [reflexivity|]. rewrite (tts_irrel vs vs' x). apply IH.
+Qed.
+
 Lemma store_same name toks v vs :
-  assoc name (store name toks v vs) =
+  assoc (written_key name toks vs) (store name toks v vs) =
   Some {| v_tokens := match assoc name vs with Some vi => v_tokens vi | None => toks end; v_data := v |}.
 Proof. apply assoc_insert_same. Qed.
 
-Lemma store_other name toks v vs k : k <> name -> assoc k (store name toks v vs) = assoc k vs.
+Lemma store_other name toks v vs k :
+  k <> written_key name toks vs -> assoc k (store name toks v vs) = assoc k vs.
 Proof. intro H. apply assoc_insert_other, H. Qed.
 
 Lemma store_mem name toks v vs k :
-  assoc_mem k (store name toks v vs) = str_eqb k name || assoc_mem k vs.
+  assoc_mem k (store name toks v vs) = str_eqb k (written_key name toks vs) || assoc_mem k vs.
 Proof. apply assoc_mem_insert. Qed.
 
 Lemma var_value_store name toks v vs k :
-  var_value (store name toks v vs) k = if str_eqb k name then v else var_value vs k.
+  var_value (store name toks v vs) k = if str_eqb k (written_key name toks vs) then v else var_value vs k.
 Proof.
-  unfold store, var_value. rewrite assoc_insert_lookup. destruct (str_eqb k name); reflexivity.
+  unfold store, var_value. rewrite assoc_insert_lookup.
+  destruct (str_eqb k (written_key name toks vs)); reflexivity.
 Qed.
 
 (* the value of an assignment-free tree ([pure], ParserPure), reading names through [rho] only *)
@@ -194,17 +231,18 @@ Theorem exec_assign : forall cfg vs name toks (e : ast F), pure e = true ->
 Proof.
   intros cfg vs name toks e Hp. cbn [Interp.execute_ast]. rewrite (exec_pure cfg e vs Hp).
   destruct (eval_pure cfg (var_value vs) e) as [[v|m]|st]; cbn [bind]; try reflexivity.
-  unfold store. destruct (assoc name vs); reflexivity.
+  rewrite store_model. reflexivity.
 Qed.
 
-(* lookup of the name gives the value; all other names are unchanged *)
+(* lookup of the written key gives the value; all other keys are unchanged.  The written key
+   is [name] for an existing variable and for every name without an operator token *)
 Theorem assign_binds : forall cfg vs name toks (e : ast F) v,
   pure e = true -> eval_pure cfg (var_value vs) e = Ok (IOk v) ->
   exists vs', execute_ast cfg vs (AAssignment name toks e) = Ok (IOk v, vs') /\
-    assoc name vs' =
+    assoc (written_key name toks vs) vs' =
       Some {| v_tokens := match assoc name vs with Some vi => v_tokens vi | None => toks end;
               v_data := v |} /\
-    (forall k, k <> name -> assoc k vs' = assoc k vs).
+    (forall k, k <> written_key name toks vs -> assoc k vs' = assoc k vs).
 Proof.
   intros cfg vs name toks e v Hp Hev. exists (store name toks v vs).
   rewrite (exec_assign cfg vs name toks e Hp), Hev. cbn [bind].
@@ -222,14 +260,15 @@ Qed.
 Definition line_ast (a : ast F) : bool :=
   match a with AAssignment _ _ e => pure e | _ => pure a end.
 
-Definition assigned (a : ast F) : option str :=
-  match a with AAssignment n _ _ => Some n | _ => None end.
+(* the key a line writes when it evaluates in the session vs *)
+Definition assigned (vs : vars F) (a : ast F) : option str :=
+  match a with AAssignment n toks _ => Some (written_key n toks vs) | _ => None end.
 
 (* whatever a line does: no other name changes, no variable disappears, an error changes nothing,
    a use changes nothing, a successful assignment is exactly [store] *)
 Theorem exec_line_frame : forall cfg vs (a : ast F) r vs',
   line_ast a = true -> execute_ast cfg vs a = Ok (r, vs') ->
-  (forall k, assigned a <> Some k -> assoc k vs' = assoc k vs) /\
+  (forall k, assigned vs a <> Some k -> assoc k vs' = assoc k vs) /\
   (forall k, assoc_mem k vs = true -> assoc_mem k vs' = true) /\
   match r with
   | IErr _ => vs' = vs
@@ -248,29 +287,30 @@ Proof.
   destruct (eval_pure cfg (var_value vs) e) as [[v0|m0]|st]; cbn [bind] in H; try discriminate;
     injection H as <- <-; cbn [assigned].
   - split; [|split; [|reflexivity]].
-    + intros k Hk. apply store_other. intro E. subst. contradiction.
+    + intros k Hk. apply store_other. intro E. subst. apply Hk. reflexivity.
     + intros k Hk. rewrite store_mem, Hk. apply orb_true_r.
   - repeat split; auto.
 Qed.
 
 (* a binding holds a value, not a reference: `y = x` stores the CURRENT value of x (creating y
-   if need be), and a later re-assignment of x (any line that assigns a name other than y)
-   leaves y alone *)
+   if need be) under y's written key, and a later re-assignment of x (any line that writes
+   another key) leaves y alone *)
 Theorem copy_is_value : forall cfg vs x y ty vx,
   assoc x vs = Some vx ->
+  let ky := written_key y ty vs in
   execute_ast cfg vs (AAssignment y ty (AVariable x)) =
     Ok (IOk (v_data vx), store y ty (v_data vx) vs) /\
-  value_of (store y ty (v_data vx) vs) y = Some (v_data vx) /\
-  forall (a : ast F) r vs2, line_ast a = true -> assigned a <> Some y ->
+  value_of (store y ty (v_data vx) vs) ky = Some (v_data vx) /\
+  forall (a : ast F) r vs2, line_ast a = true -> assigned (store y ty (v_data vx) vs) a <> Some ky ->
     execute_ast cfg (store y ty (v_data vx) vs) a = Ok (r, vs2) ->
-    value_of vs2 y = Some (v_data vx).
+    value_of vs2 ky = Some (v_data vx).
 Proof.
-  intros cfg vs x y ty vx Hx. split; [|split].
+  intros cfg vs x y ty vx Hx ky. split; [|split].
   - rewrite exec_assign by reflexivity. cbn [eval_pure bind]. unfold var_value. rewrite Hx. reflexivity.
-  - unfold value_of. rewrite store_same. reflexivity.
+  - unfold value_of, ky. rewrite store_same. reflexivity.
   - intros a r vs2 Hl Hne H.
     destruct (exec_line_frame cfg _ a r vs2 Hl H) as (Hfr & _ & _).
-    unfold value_of. rewrite (Hfr y Hne), store_same. reflexivity.
+    unfold value_of. rewrite (Hfr ky Hne). unfold ky. rewrite store_same. reflexivity.
 Qed.
 
 (* ================================================================== *)
@@ -306,6 +346,14 @@ Fixpoint mrun (cfg : config F) (vs : vars F) (p : list (stmt (ast F) * list (tok
 Definition stmt_pure (st : stmt (ast F)) : bool :=
   match st with Assign _ e => pure e | Use e => pure e end.
 
+(* the name of the statement is the key of its name tokens: true of every name without an
+   operator token (section 4.1: lookup_key_is_var_key, var_key_name_toks) *)
+Definition key_ok (st : stmt (ast F) * list (token F)) : Prop :=
+  match st with
+  | (Assign n _, toks) => forall vs, var_key vs toks = n
+  | (Use _, _) => True
+  end.
+
 (* the abstraction relation: every name denotes the same value on both sides *)
 Definition Rel (vs : vars F) (en : env (ast F)) : Prop :=
   forall k, rho_of (fun k => lookup k en) k = var_value vs k.
@@ -314,19 +362,19 @@ Lemma Rel_nil : Rel [] [].
 Proof. intro k. reflexivity. Qed.
 
 Theorem step_refines : forall cfg vs en st toks x,
-  stmt_pure st = true -> Rel vs en -> mstep cfg vs (st, toks) = Ok x ->
+  stmt_pure st = true -> key_ok (st, toks) -> Rel vs en -> mstep cfg vs (st, toks) = Ok x ->
   step (spec_eval cfg) spec_value en st =
     (fst (step (spec_eval cfg) spec_value en st), Ok (fst x)) /\
   Rel (snd x) (fst (step (spec_eval cfg) spec_value en st)).
 Proof.
-  intros cfg vs en st toks [r vs'] Hp HR H. destruct st as [n e|e]; cbn [stmt_pure mstep] in *.
+  intros cfg vs en st toks [r vs'] Hp Hk HR H. destruct st as [n e|e]; cbn [stmt_pure mstep key_ok] in *.
   - rewrite (exec_assign cfg _ n toks e Hp) in H.
     assert (Hev : eval_pure cfg (var_value vs) e = spec_eval cfg (fun k => lookup k en) e).
     { unfold spec_eval. apply eval_pure_ext. intro k. symmetry. apply HR. }
     rewrite Hev in H. cbn [step fst snd].
     destruct (spec_eval cfg (fun k => lookup k en) e) as [[v|m]|st]; cbn [bind] in H; try discriminate;
       injection H as <- <-; cbn [spec_value].
-    + split; [reflexivity|]. intro k. rewrite var_value_store.
+    + split; [reflexivity|]. intro k. rewrite var_value_store, (written_key_coherent n toks vs (Hk vs)).
       unfold rho_of. cbn [lookup]. destruct (str_eqb k n); [reflexivity|]. apply HR.
     + split; [reflexivity|exact HR].
   - rewrite (exec_pure cfg e vs Hp) in H.
@@ -340,20 +388,21 @@ Qed.
 (* all programs: the model's results are those of the reference semantics, line by line, and
    the variables keep denoting the reference environment *)
 Theorem refines : forall cfg p vs en outs vs',
-  forallb (fun st => stmt_pure (fst st)) p = true -> Rel vs en ->
+  forallb (fun st => stmt_pure (fst st)) p = true -> Forall key_ok p -> Rel vs en ->
   mrun cfg vs p = Ok (outs, vs') ->
   snd (run (spec_eval cfg) spec_value en (map fst p)) = map Ok outs /\
   Rel vs' (fst (run (spec_eval cfg) spec_value en (map fst p))).
 Proof.
-  intros cfg p. induction p as [|[st toks] rest IH]; intros vs en outs vs' Hp HR H.
+  intros cfg p. induction p as [|[st toks] rest IH]; intros vs en outs vs' Hp Hk HR H.
   - cbn [mrun] in H. injection H as <- <-. split; [reflexivity|exact HR].
   - cbn [forallb fst] in Hp. apply andb_true_iff in Hp as [Hst Hrest].
+    inversion Hk as [|? ? Hk1 Hk2]; subst.
     cbn [mrun] in H. destruct (mstep cfg vs (st, toks)) as [x|s1] eqn:E1; cbn [bind] in H; [|discriminate].
     destruct (mrun cfg (snd x) rest) as [[outs2 vs2]|s2] eqn:E2; cbn [bind] in H; [|discriminate].
     injection H as <- <-.
-    destruct (step_refines cfg vs en st toks x Hst HR E1) as [Hs HR1].
+    destruct (step_refines cfg vs en st toks x Hst Hk1 HR E1) as [Hs HR1].
     cbn [map run fst]. rewrite Hs.
-    destruct (IH (snd x) _ outs2 vs2 Hrest HR1 E2) as [Ho HR2].
+    destruct (IH (snd x) _ outs2 vs2 Hrest Hk2 HR1 E2) as [Ho HR2].
     destruct (run (spec_eval cfg) spec_value (fst (step (spec_eval cfg) spec_value en st)) (map fst rest))
       as [en2 rs] eqn:Er.
     cbn [fst snd] in *. split; [rewrite Ho; reflexivity|exact HR2].
@@ -368,19 +417,19 @@ Lemma RelDom_Rel vs en : RelDom vs en -> Rel vs en.
 Proof. intros H k. unfold rho_of. rewrite H, var_value_value_of. reflexivity. Qed.
 
 Theorem step_refines_exact : forall cfg vs en st toks x,
-  stmt_pure st = true -> RelDom vs en -> mstep cfg vs (st, toks) = Ok x ->
+  stmt_pure st = true -> key_ok (st, toks) -> RelDom vs en -> mstep cfg vs (st, toks) = Ok x ->
   RelDom (snd x) (fst (step (spec_eval cfg) spec_value en st)).
 Proof.
-  intros cfg vs en st toks [r vs'] Hp HR H.
-  pose proof (RelDom_Rel _ _ HR) as HR0. destruct st as [n e|e]; cbn [stmt_pure mstep] in *.
+  intros cfg vs en st toks [r vs'] Hp Hk HR H.
+  pose proof (RelDom_Rel _ _ HR) as HR0. destruct st as [n e|e]; cbn [stmt_pure mstep key_ok] in *.
   - rewrite (exec_assign cfg _ n toks e Hp) in H.
     assert (Hev : eval_pure cfg (var_value vs) e = spec_eval cfg (fun k => lookup k en) e).
     { unfold spec_eval. apply eval_pure_ext. intro k. symmetry. apply HR0. }
     rewrite Hev in H. cbn [step fst snd].
     destruct (spec_eval cfg (fun k => lookup k en) e) as [[v|m]|st]; cbn [bind] in H; try discriminate;
       injection H as <- <-; cbn [spec_value]; [|exact HR].
-    intro k. unfold value_of, store. rewrite assoc_insert_lookup. cbn [lookup].
-    destruct (str_eqb k n); [reflexivity|]. apply HR.
+    intro k. unfold value_of, store. rewrite assoc_insert_lookup, (written_key_coherent n toks vs (Hk vs)).
+    cbn [lookup]. destruct (str_eqb k n); [reflexivity|]. apply HR.
   - rewrite (exec_pure cfg e vs Hp) in H.
     destruct (eval_pure cfg (var_value vs) e) as [r0|st]; cbn [bind] in H; try discriminate.
     injection H as <- <-. exact HR.
@@ -389,15 +438,96 @@ Qed.
 (* later lines see the latest binding: after any program the value a name denotes is that of
    the last assignment to it that evaluated (the initial one if there was none) *)
 Theorem latest_binding : forall cfg p vs en outs vs' n,
-  forallb (fun st => stmt_pure (fst st)) p = true -> Rel vs en ->
+  forallb (fun st => stmt_pure (fst st)) p = true -> Forall key_ok p -> Rel vs en ->
   mrun cfg vs p = Ok (outs, vs') ->
   var_value vs' n =
   match latest spec_value n (lookup n en) (combine (map fst p) (map Ok outs)) with
   | Some v => v | None => ANone end.
 Proof.
-  intros cfg p vs en outs vs' n Hp HR H.
-  destruct (refines cfg p vs en outs vs' Hp HR H) as [Ho HR'].
+  intros cfg p vs en outs vs' n Hp Hk HR H.
+  destruct (refines cfg p vs en outs vs' Hp Hk HR H) as [Ho HR'].
   rewrite <- (HR' n). unfold rho_of. rewrite run_latest, Ho. reflexivity.
+Qed.
+
+(* ---- programs as the parser builds them: an assignment node always carries the key of its
+   own name tokens (parsed_key_is_var_key, section 4.1), so [key_ok] holds by construction ---- *)
+Inductive pline :=
+| PAssign (toks : list (token F)) (e : ast F)
+| PUse (e : ast F).
+
+Definition pl_ast (vs : vars F) (l : pline) : ast F :=
+  match l with PAssign toks e => AAssignment (var_key vs toks) toks e | PUse e => e end.
+
+Definition pl_stmt (l : pline) : stmt (ast F) * list (token F) :=
+  match l with PAssign toks e => (Assign (var_key [] toks) e, toks) | PUse e => (Use e, []) end.
+
+Definition pl_pure (l : pline) : bool := match l with PAssign _ e => pure e | PUse e => pure e end.
+
+Lemma pl_key_ok l : key_ok (pl_stmt l).
+Proof. destruct l as [toks e|e]; cbn [pl_stmt key_ok]; [|exact I]. intro vs. apply var_key_irrel. Qed.
+
+Lemma mstep_pl cfg vs l : mstep cfg vs (pl_stmt l) = execute_ast cfg vs (pl_ast vs l).
+Proof. destruct l as [toks e|e]; cbn [pl_stmt mstep pl_ast]; [|reflexivity]. rewrite (var_key_irrel [] vs). reflexivity. Qed.
+
+(* one line after the other, each evaluated as the parser's tree for it *)
+Fixpoint prun (cfg : config F) (vs : vars F) (p : list pline) : res (list (@ires F) * vars F) :=
+  match p with
+  | [] => Ok ([], vs)
+  | l :: rest =>
+    do x <- execute_ast cfg vs (pl_ast vs l);
+    do y <- prun cfg (snd x) rest;
+    Ok (fst x :: fst y, snd y)
+  end.
+
+Lemma prun_mrun cfg : forall p vs, prun cfg vs p = mrun cfg vs (map pl_stmt p).
+Proof.
+  induction p as [|l rest IH]; intro vs; cbn [prun mrun map]; [reflexivity|].
+  rewrite mstep_pl. destruct (execute_ast cfg vs (pl_ast vs l)) as [x|st]; cbn [bind]; [|reflexivity].
+  rewrite IH. reflexivity.
+Qed.
+
+Definition pl_spec (p : list pline) : list (stmt (ast F)) := map (fun l => fst (pl_stmt l)) p.
+
+Lemma pl_forallb p : forallb pl_pure p = true ->
+  forallb (fun st => stmt_pure (fst st)) (map pl_stmt p) = true.
+Proof.
+  induction p as [|l rest IH]; intro H; [reflexivity|]. cbn [forallb map] in *.
+  apply andb_true_iff in H as [H1 H2]. rewrite (IH H2), andb_true_r. destruct l; exact H1.
+Qed.
+
+Lemma pl_all_key_ok p : Forall key_ok (map pl_stmt p).
+Proof. induction p as [|l rest IH]; constructor; [apply pl_key_ok|exact IH]. Qed.
+
+Theorem refines_parsed : forall cfg p vs en outs vs',
+  forallb pl_pure p = true -> Rel vs en -> prun cfg vs p = Ok (outs, vs') ->
+  snd (run (spec_eval cfg) spec_value en (pl_spec p)) = map Ok outs /\
+  Rel vs' (fst (run (spec_eval cfg) spec_value en (pl_spec p))).
+Proof.
+  intros cfg p vs en outs vs' Hp HR H. rewrite prun_mrun in H.
+  pose proof (refines cfg (map pl_stmt p) vs en outs vs' (pl_forallb p Hp) (pl_all_key_ok p) HR H) as R.
+  unfold pl_spec. rewrite map_map in R. exact R.
+Qed.
+
+Theorem refines_exact_parsed : forall cfg vs en l x,
+  pl_pure l = true -> RelDom vs en -> execute_ast cfg vs (pl_ast vs l) = Ok x ->
+  RelDom (snd x) (fst (step (spec_eval cfg) spec_value en (fst (pl_stmt l)))).
+Proof.
+  intros cfg vs en l x Hp HR H. rewrite <- mstep_pl in H.
+  destruct (pl_stmt l) as [st toks] eqn:E. cbn [fst].
+  apply (step_refines_exact cfg vs en st toks x); try assumption.
+  - destruct l; injection E as <- _; exact Hp.
+  - rewrite <- E. apply pl_key_ok.
+Qed.
+
+Theorem latest_binding_parsed : forall cfg p vs en outs vs' n,
+  forallb pl_pure p = true -> Rel vs en -> prun cfg vs p = Ok (outs, vs') ->
+  var_value vs' n =
+  match latest spec_value n (lookup n en) (combine (pl_spec p) (map Ok outs)) with
+  | Some v => v | None => ANone end.
+Proof.
+  intros cfg p vs en outs vs' n Hp HR H. rewrite prun_mrun in H.
+  pose proof (latest_binding cfg (map pl_stmt p) vs en outs vs' n (pl_forallb p Hp) (pl_all_key_ok p) HR H) as R.
+  unfold pl_spec. rewrite map_map in R. exact R.
 Qed.
 
 (* ================================================================== *)
@@ -473,6 +603,152 @@ Proof.
   2:{ unfold parse_fuel. rewrite app_length. cbn [length]. lia. }
   pose proof (ast_of_not_none e) as Hn.
   unfold name_key. destruct (ast_of e); try congruence; reflexivity.
+Qed.
+
+(* the bridge between the two keys: the key the parser looks up (assign_name_loop over the
+   tokens up to the first '=') IS the key the interpreter stores under (var_key of those
+   tokens), for EVERY name, operator tokens included *)
+Definition no_eq (ts : list (token F)) : Prop := Forall (fun t => is_op OP_EQ t = false) ts.
+
+Lemma name_loop_gen : forall (ts : list (token F)) (pre : list (token F)) rhs vs idx fuel name,
+  no_eq ts -> length pre = S idx -> length ts < fuel ->
+  assign_name_loop fuel (pre ++ ts ++ TOperator OP_EQ :: rhs) vs idx name =
+  (S (S (idx + length ts)),
+   fold_left (fun acc t' => acc ++ 32%N :: to_lowercase (token_to_string vs t')) ts name).
+Proof.
+  induction ts as [|t ts IH]; intros pre rhs vs idx fuel name Hno Hpre Hf;
+    (destruct fuel as [|fuel]; [cbn [length] in Hf; lia|]); cbn [assign_name_loop app].
+  - rewrite <- Hpre, nth_opt_app_here. cbn [N.eqb OP_EQ Pos.eqb]. rewrite Hpre.
+    cbn [fold_left length]. rewrite Nat.add_0_r. reflexivity.
+  - rewrite <- Hpre, nth_opt_app_here. rewrite Hpre.
+    inversion Hno as [|? ? Ht Hts]; subst.
+    change (pre ++ t :: ts ++ TOperator OP_EQ :: rhs) with (pre ++ [t] ++ ts ++ TOperator OP_EQ :: rhs).
+    rewrite app_assoc.
+    assert (Hstep : forall nm, assign_name_loop fuel ((pre ++ [t]) ++ ts ++ TOperator OP_EQ :: rhs) vs (S idx) nm =
+              (S (S (S idx + length ts)),
+               fold_left (fun acc t' => acc ++ 32%N :: to_lowercase (token_to_string vs t')) ts nm)).
+    { intro nm. apply IH; [exact Hts|rewrite app_length; cbn [length]; lia|cbn [length] in Hf; lia]. }
+    cbn [fold_left length].
+    replace (S (S (idx + S (length ts)))) with (S (S (S idx + length ts))) by lia.
+    destruct t; try apply Hstep.
+    cbn [is_op] in Ht. rewrite N.eqb_sym in Ht. rewrite Ht. apply Hstep.
+Qed.
+
+(* no '=' at all after the first token: the loop runs to the end of the tokens *)
+Lemma name_loop_noeq : forall (ts : list (token F)) (pre : list (token F)) vs idx fuel name,
+  no_eq ts -> length pre = S idx -> length ts < fuel ->
+  fst (assign_name_loop fuel (pre ++ ts) vs idx name) = S idx + length ts.
+Proof.
+  induction ts as [|t ts IH]; intros pre vs idx fuel name Hno Hpre Hf;
+    (destruct fuel as [|fuel]; [cbn [length] in Hf; lia|]); cbn [assign_name_loop].
+  - rewrite app_nil_r.
+    assert (Hn : nth_opt pre (S idx) = None).
+    { rewrite <- Hpre. clear. induction pre as [|x pre IH]; [reflexivity|exact IH]. }
+    rewrite Hn. cbn [fst length]. lia.
+  - rewrite <- Hpre, nth_opt_app_here. rewrite Hpre.
+    inversion Hno as [|? ? Ht Hts]; subst.
+    change (pre ++ t :: ts) with (pre ++ [t] ++ ts). rewrite app_assoc.
+    assert (Hstep : forall nm, fst (assign_name_loop fuel ((pre ++ [t]) ++ ts) vs (S idx) nm) = S (S idx) + length ts).
+    { intro nm. apply IH; [exact Hts|rewrite app_length; cbn [length]; lia|cbn [length] in Hf; lia]. }
+    cbn [length]. replace (S idx + S (length ts)) with (S (S idx) + length ts) by lia.
+    destruct t; try apply Hstep.
+    cbn [is_op] in Ht. rewrite N.eqb_sym in Ht. rewrite Ht. apply Hstep.
+Qed.
+
+Lemma split_first_eq : forall rest : list (token F),
+  (exists ts rhs, rest = ts ++ TOperator OP_EQ :: rhs /\ no_eq ts) \/ no_eq rest.
+Proof.
+  induction rest as [|t r IH]; [right; constructor|].
+  destruct (is_op OP_EQ t) eqn:E.
+  - left. exists [], r. split; [|constructor].
+    destruct t; cbn [is_op] in E; try discriminate. apply N.eqb_eq in E. subst. reflexivity.
+  - destruct IH as [(ts & rhs & -> & Hno)|Hno].
+    + left. exists (t :: ts), rhs. split; [reflexivity|constructor; assumption].
+    + right. constructor; assumption.
+Qed.
+
+Lemma parse_level_nil f : 7 <= f -> parse_level f LAddSub (@nil (token F)) = (PErr E_NO_MORE, []).
+Proof.
+  intro H. do 7 (destruct f as [|f]; [lia|]). reflexivity.
+Qed.
+
+Theorem lookup_key_is_var_key : forall (t0 : token F) ts rhs vs,
+  no_eq ts ->
+  assign_name_loop (S (length (t0 :: ts ++ TOperator OP_EQ :: rhs))) (t0 :: ts ++ TOperator OP_EQ :: rhs) vs 0
+                   (to_lowercase (token_to_string vs t0)) =
+  (S (S (length ts)), var_key vs (t0 :: ts)).
+Proof.
+  intros t0 ts rhs vs Hno.
+  pose proof (name_loop_gen ts [t0] rhs vs 0 (S (length (t0 :: ts ++ TOperator OP_EQ :: rhs)))
+                (to_lowercase (token_to_string vs t0)) Hno eq_refl) as H.
+  cbn [app Nat.add] in H. rewrite H; [reflexivity|]. cbn [length]. rewrite app_length. lia.
+Qed.
+
+Lemma fold_key_tail : forall (ws : list str) (vs : vars F) acc,
+  fold_left (fun acc t' => acc ++ 32%N :: to_lowercase (token_to_string vs t')) (name_toks ws) acc
+  = acc ++ key_tail ws.
+Proof.
+  induction ws as [|w ws IH]; intros vs acc; cbn [name_toks map fold_left key_tail flat_map].
+  - rewrite app_nil_r. reflexivity.
+  - fold (name_toks ws). rewrite IH. cbn [token_to_string]. fold (key_tail ws).
+    rewrite <- app_assoc. reflexivity.
+Qed.
+
+(* word names: both keys are the space-joined lower-cased words *)
+Theorem var_key_name_toks : forall (vs : vars F) ws, var_key vs (name_toks ws) = name_key ws.
+Proof.
+  intros vs [|w ws]; [reflexivity|]. cbn [name_toks map var_key name_key]. fold (name_toks ws).
+  rewrite fold_key_tail. reflexivity.
+Qed.
+
+Lemma name_toks_no_eq ws : no_eq (name_toks ws).
+Proof. induction ws as [|w ws IH]; constructor; [reflexivity|exact IH]. Qed.
+
+(* for EVERY token list: whenever the parser builds an assignment node, its key is var_key of
+   the name tokens it carries; hence the interpreter always writes the key it looked up *)
+Theorem parsed_key_is_var_key : forall (tokens : list (token F)) vs name toks e vs',
+  parse tokens vs = (PAst (AAssignment name toks e), vs') -> name = var_key vs toks.
+Proof.
+  intros tokens vs name toks e vs' H. unfold parse, parse_assignment in H.
+  assert (Hplain : forall rest v0,
+             (fst (parse_level (parse_fuel tokens) LAddSub rest), v0) = (PAst (AAssignment name toks e), vs') -> False).
+  { intros rest v0 E. injection E as E _.
+    destruct (parse_level (parse_fuel tokens) LAddSub rest) as [r i] eqn:Ep. cbn [fst] in E. subst r.
+    pose proof (parse_level_pure _ _ _ _ _ Ep) as Hp. discriminate. }
+  destruct (find_index (is_op OP_EQ) tokens) as [k|]; [|exfalso; exact (Hplain _ _ H)].
+  destruct tokens as [|t0 rest]; [exfalso; exact (Hplain _ _ H)|]. cbn [nth_opt] in H.
+  destruct (split_first_eq rest) as [(ts & rhs & -> & Hno)|Hno].
+  - rewrite (lookup_key_is_var_key t0 ts rhs vs Hno) in H. cbv iota beta in H. cbn [Nat.pred] in H.
+    assert (Hfi : firstn (S (length ts)) (t0 :: ts ++ TOperator OP_EQ :: rhs) = t0 :: ts).
+    { cbn [firstn]. f_equal. rewrite firstn_app, firstn_all, Nat.sub_diag. cbn [firstn]. apply app_nil_r. }
+    rewrite Hfi in H.
+    destruct (parse_level (parse_fuel (t0 :: ts ++ TOperator OP_EQ :: rhs)) LAddSub
+                          (skipn (S (S (length ts))) (t0 :: ts ++ TOperator OP_EQ :: rhs))) as [[a|m|] i].
+    + destruct a; try (injection H as <- <- _ _; reflexivity); try discriminate.
+      exfalso. exact (Hplain _ _ H).
+    + discriminate.
+    + discriminate.
+  - destruct (assign_name_loop (S (length (t0 :: rest))) (t0 :: rest) vs 0 (to_lowercase (token_to_string vs t0)))
+      as [idx nm] eqn:El.
+    pose proof (name_loop_noeq rest [t0] vs 0 (S (length (t0 :: rest))) (to_lowercase (token_to_string vs t0))
+                  Hno eq_refl) as Hi.
+    cbn [app] in Hi. rewrite El in Hi. cbn [fst] in Hi. rewrite Hi in H by (cbn [length]; lia).
+    replace (skipn (1 + length rest) (t0 :: rest)) with (@nil (token F)) in H
+      by (symmetry; apply skipn_all2; cbn [length]; lia).
+    rewrite parse_level_nil in H by (unfold parse_fuel; lia). discriminate.
+Qed.
+
+(* hence a word-name assignment writes exactly the key it is looked up under *)
+Theorem word_name_written_key : forall (vs : vars F) ws,
+  written_key (name_key ws) (name_toks ws) vs = name_key ws.
+Proof. intros vs ws. apply written_key_coherent, var_key_name_toks. Qed.
+
+(* the written key of a parsed assignment is always the key it was looked up under *)
+Theorem parsed_written_key : forall (tokens : list (token F)) vs name toks e vs',
+  parse tokens vs = (PAst (AAssignment name toks e), vs') -> forall vs0, written_key name toks vs0 = name.
+Proof.
+  intros tokens vs name toks e vs' H vs0. apply written_key_coherent.
+  rewrite (parsed_key_is_var_key _ _ _ _ _ _ H). apply var_key_irrel.
 Qed.
 
 (* ---- 4.1b distinct names never share a variable: the key determines the lower-cased words
@@ -951,7 +1227,7 @@ Proof.
   intros cfg lang vs line o vs' H.
   destruct (line_effect cfg lang vs line o vs' H) as [->|(obs & out & v & name & toks & _ & _ & ->)].
   - exists []. intros k _. reflexivity.
-  - exists name. intros k Hk. apply store_other, Hk.
+  - exists (written_key name toks vs). intros k Hk. apply store_other, Hk.
 Qed.
 
 (* a line that fails (error or nothing to show) leaves the session EXACTLY as it was *)
@@ -1065,4 +1341,25 @@ Proof. vm_compute. split; reflexivity. Qed.
 Theorem collision_repaired :
   outs ["ab = 1"; "a b = 2"; "ab"; "a b"] = [ok "1"; ok "2"; ok "1"; ok "2"] /\
   outs ["a bc = 1"; "ab c = 2"; "a bc + ab c"] = [ok "1"; ok "2"; ok "3"].
+Proof. vm_compute. split; reflexivity. Qed.
+
+(* a name whose second or later word is an operator word (`sum` is an alias of +), or that holds
+   an operator character (net-pay): the operator token is part of the key ("grand +"), for the
+   lookup as for the storage; `grand sum` and `grand` are two independent variables, the longer
+   name wins, and re-binding `grand sum` replaces its value *)
+Theorem operator_word_name :
+  outs ["grand sum = 10"; "grand = 7"; "grand sum"; "grand"; "grand sum = 3"; "grand sum + grand"]
+    = [ok "10"; ok "7"; ok "10"; ok "7"; ok "3"; ok "10"] /\
+  outs ["grand sum = 10"; "grand sum = 25"; "grand sum + 1"; "Grand Sum * 2"]
+    = [ok "10"; ok "25"; ok "26"; ok "50"] /\
+  outs ["net-pay = 100"; "net-pay = 150"; "net-pay + 1"] = [ok "100"; ok "150"; ok "151"].
+Proof. vm_compute. repeat split; reflexivity. Qed.
+
+(* formerly a defect (repaired in /repo 60764fa): the parser looked a variable up under the key
+   without the operator tokens, so `grand sum = ..` overwrote a bound `grand`; now the lookup key
+   is the storage key and the two are independent variables in either order *)
+Theorem operator_word_crosswrite_repaired :
+  outs ["grand = 7"; "grand sum = 10"; "grand"; "grand sum"] = [ok "7"; ok "10"; ok "7"; ok "10"] /\
+  outs ["grand sum = 10"; "grand = 7"; "grand sum = 3"; "grand sum"; "grand"]
+    = [ok "10"; ok "7"; ok "3"; ok "3"; ok "7"].
 Proof. vm_compute. split; reflexivity. Qed.
